@@ -353,35 +353,7 @@ def run(ctx):
               "uf_union can link a root to itself (or links before finding both roots): uf_find's `while let Some(q) = map[root]` then never "
               "terminates — a grammar with a cycle of unit rules (a: b, b: a) hangs compilation", site=uu.where())
 
-    # ------------------------------------------------------------------ R2 overflow census (json/numeric.rs)
-    n_fn = 0
-    for i, b in sorted(P.bodies.items()):
-        if not P._is_code(b) or not (i.startswith(NUM) or i.startswith("<llguidance::json::numeric::")) or "::test" in i:
-            continue
-        ops = collections.Counter()
-        for bi in b.live_blocks():
-            t = b.blocks[bi]["term"]
-            if t["t"] == "assert" and t["msg"].startswith("Overflow"):
-                ops[t["msg"]] += 1
-            if t["t"] == "call":
-                d = t["f"].get("def", "")
-                last = d.rsplit("::", 1)[-1]
-                if d.startswith("core::num::") and last in ("pow", "abs", "next_power_of_two"):
-                    ops["call:" + last] += 1
-        if not ops:
-            continue
-        n_fn += 1
-        ent = OVF_CENSUS.get(i)
-        if ent is None:
-            ctx.violation("C20-R2", "unchecked-arithmetic:" + i.replace("llguidance::json::numeric::", ""),
-                          "%s performs possibly-overflowing integer arithmetic on schema numbers (%s) and is not in the reasoned census: "
-                          "an overflow wraps in release builds and yields a wrong constraint" % (i, dict(ops)), site=b.where())
-            continue
-        allowed, why = ent
-        over = {k: v for k, v in ops.items() if v > allowed.get(k, 0) and (k.startswith(("Overflow(Mul", "Overflow(Shl", "OverflowNeg", "call:")) or k not in allowed)}
-        ctx.check(not over, "C20-R2", "census:" + i.replace("llguidance::json::numeric::", ""), "%s — %s" % (dict(ops), why),
-                  "%s has new possibly-overflowing operations %s beyond the census %s" % (i, over, allowed), site=b.where())
-    ctx.floor("C20-R2", "numeric functions with overflow-checked arithmetic", n_fn, 8)
+    overflow_census(ctx, "C20-R2")
 
     # ------------------------------------------------------------------ R3 user-count loops
     r3(ctx)
@@ -461,6 +433,40 @@ def run(ctx):
               "the token id is compared with vocab_size before decoding / committing", "TokenParser::apply_token no longer range-checks the token id", site=at.where())
     tk = ctx.body("toktrie::toktree::TokTrie::token")
     ctx.info("C20-R6", "TokTrie::token bounds behaviour: %d blocks" % len(tk.blocks))
+
+
+def overflow_census(ctx, rule):
+    """census of possibly-overflowing integer operations on schema numbers in json/numeric.rs"""
+    P = ctx.prog
+    n_fn = 0
+    for i, b in sorted(P.bodies.items()):
+        if not P._is_code(b) or not (i.startswith(NUM) or i.startswith("<llguidance::json::numeric::")) or "::test" in i:
+            continue
+        ops = collections.Counter()
+        for bi in b.live_blocks():
+            t = b.blocks[bi]["term"]
+            if t["t"] == "assert" and t["msg"].startswith("Overflow"):
+                ops[t["msg"]] += 1
+            if t["t"] == "call":
+                d = t["f"].get("def", "")
+                last = d.rsplit("::", 1)[-1]
+                if d.startswith("core::num::") and last in ("pow", "abs", "next_power_of_two"):
+                    ops["call:" + last] += 1
+        if not ops:
+            continue
+        n_fn += 1
+        ent = OVF_CENSUS.get(i)
+        if ent is None:
+            ctx.violation(rule, "unchecked-arithmetic:" + i.replace("llguidance::json::numeric::", ""),
+                          "%s performs possibly-overflowing integer arithmetic on schema numbers (%s) and is not in the reasoned census: "
+                          "an overflow wraps in release builds and yields a wrong constraint" % (i, dict(ops)), site=b.where())
+            continue
+        allowed, why = ent
+        over = {k: v for k, v in ops.items() if v > allowed.get(k, 0) and (k.startswith(("Overflow(Mul", "Overflow(Shl", "OverflowNeg", "call:")) or k not in allowed)}
+        ctx.check(not over, rule, "census:" + i.replace("llguidance::json::numeric::", ""), "%s — %s" % (dict(ops), why),
+                  "%s has new possibly-overflowing operations %s beyond the census %s" % (i, over, allowed), site=b.where())
+    ctx.floor(rule, "numeric functions with overflow-checked arithmetic", n_fn, 8)
+
 
 
 def r3(ctx):
